@@ -565,6 +565,30 @@ pub fn run_check(mode: Mode, replay: Option<Value>) -> i32 {
         }
         return if rep.violations.is_empty() { 0 } else { 1 };
     }
+    if mode == Mode::C08 {
+        // the degenerate zero-length run: one (empty) list per event function, whatever the dimension
+        for m in M6 {
+            for (pi, p) in [crate::problems::base(crate::problems::Base::Harmonic(1.0)), crate::problems::base(crate::problems::Base::Decay(-1.0)), crate::problems::base(crate::problems::Base::Lin3)].iter().enumerate() {
+                for nev in 1..=4usize {
+                    let mut c = Cfg::new(m, 0.5, 0.5, &p.y0);
+                    c.events = (0..nev).map(|k| EventSpec::new(EvKind::T(0.5 + k as f64))).collect();
+                    let r = run(p, &c);
+                    rep.evaluations += 1;
+                    rep.transitions += 1;
+                    let key = format!("zero:{}.{}.{}", mname(m), pi, nev);
+                    match r.sol() {
+                        Some(s) => {
+                            if s.t_events.len() != nev || s.y_events.len() != nev {
+                                rep.violations.push(Violation::new(&key, "shape", format!("zero-length run with {} event functions on a {}-dimensional problem: t_events has {} lists, y_events {}", nev, p.n, s.t_events.len(), s.y_events.len()), json!({"key": key})).with("method", mname(m)));
+                            }
+                            *rep.tags.entry("zero-length-shapes".into()).or_insert(0) += 1;
+                        }
+                        None => rep.violations.push(Violation::new(&key, "outcome", format!("zero-length run ended with {}", r.outcome_name()), json!({"key": key})).with("method", mname(m))),
+                    }
+                }
+            }
+        }
+    }
     rep.violations.extend(regress::violations_for(id));
     rep.dims = json!({"event_alphabet": "t-c, -(t-c), y0-c (c = plain solution at the placement), y0*y1, cos(3t), sin(9t); scale {1,1e-6}; direction {All,Positive,Negative}; roots at x_k+θh_k (θ=1e-7,1/4,1/2,3/4,1-1e-7) and x_k±1e-9 for the first 4 (quick) / 6 (thorough) steps; pairs/triples of functions firing in one step in both index orders and coincident",
         "groups": groups});
